@@ -22,6 +22,8 @@ from kv.gen import enc, dec, backend_name
 PERSISTENT = [b for b in gen.BACKENDS if gen.persistent(b)] + [
     {'kind': 'file', 'serialized': True, 'protocol': 0},
     {'kind': 'dir', 'serialized': True, 'protocol': 4},
+    {'kind': 'file', 'serialized': False, 'protocol': None, 'noext': True},   # file names given without extension
+    {'kind': 'file', 'serialized': True, 'protocol': None, 'noext': True},
 ]
 
 
